@@ -205,14 +205,17 @@ pub fn gen_car(g: &mut Gen, name: &str, n_max: u32) -> CarSpec {
     // shipped rolling stock perturbed +-30 %
     let loaded = g.bool(0.6);
     let k = |g: &mut Gen| g.grid(0.7, 1.3, 12);
-    let mass_freight = if loaded { r(100.0e3 * k(g), 0) } else { 0.0 };
+    // 35 % of car types carry masses given in whole pounds (converted, so not whole
+    // kilograms: sums over car types then depend on the order of addition in the last bits)
+    let lb = if g.bool(0.35) { 0.45359237 } else { 1.0 };
+    let mass_freight = if loaded { r(100.0e3 * k(g) / lb, 0) * lb } else { 0.0 };
     CarSpec {
         name: name.into(),
         n: g.int(1, n_max as i64) as u32,
         length: r(18.0 * k(g), 1),
         axle_count: [4u8, 4, 6, 8][g.weighted(&[4, 2, 1, 1])],
         brake_count: g.int(1, 2) as u8,
-        mass_base: r(28.5e3 * k(g), 0),
+        mass_base: r(28.5e3 * k(g) / lb, 0) * lb,
         mass_freight,
         speed_max: g.grid(12.0, 35.0, 46),
         braking_ratio: r(if loaded { 0.11 } else { 0.25 } * k(g), 3),
@@ -246,11 +249,11 @@ impl Default for TrainOpts {
 }
 
 pub fn gen_train(g: &mut Gen, o: &TrainOpts) -> TrainSpec {
-    let nt = g.weighted(&[5, 3, 1]) + 1;
+    let nt = g.weighted(&[10, 6, 3, 2, 1]) + 1;
     let per = (o.max_cars / nt as u32).max(1);
     let mut cars = vec![];
     for t in 0..nt {
-        let mut c = gen_car(g, ["Bulk", "Manifest", "Intermodal"][t], per);
+        let mut c = gen_car(g, ["Bulk", "Manifest", "Intermodal", "Autorack", "Tank"][t], per);
         if t == 0 {
             c.n = c.n.max(3.min(per));
         }
